@@ -10,7 +10,7 @@
 (* model no longer describes the code.  The only unlogged variable, the    *)
 (* compressed size of each chunk, is bound from the Run event (csizes).    *)
 (***************************************************************************)
-EXTENDS Writer, Json, IOUtils
+EXTENDS Writer, ScanRead, Json, IOUtils
 
 Trace == ndJsonDeserialize(IOEnv.TRACE)
 
@@ -18,7 +18,18 @@ VARIABLES l, w, run, drift
 vars == <<l, w, run, drift>>
 
 NoW == [none |-> TRUE]
-NoRun == [id |-> "", live |-> FALSE, csizes |-> <<>>]
+NoRun == [id |-> "", live |-> FALSE, csizes |-> <<>>, tmax |-> 0, recs |-> <<>>]
+
+(* the token stream the unindexed iterator sees: every record of the file in file order, chunks expanded *)
+TokensOf(recs) == FoldLeft(LAMBDA acc, r : IF r.k = "Chunk" THEN acc \o r.inner ELSE Append(acc, r), <<>>, recs)
+(* ScanRead.tla stepped over the decoded file (no topic set, the default window [0, 2^64-1)) against the recorded scan *)
+ScanAgrees(recs, tmax, obs) ==
+  LET R == ScanAll(TokensOf(recs), {}, 0, tmax) IN
+  /\ ~R.err /\ Len(R.out) = Len(obs)
+  /\ \A i \in DOMAIN obs :
+       /\ SameMessage(obs[i].msg, R.out[i].msg)
+       /\ obs[i].channel.k = "Channel" /\ obs[i].channel.id = R.out[i].channel.id /\ obs[i].channel.topic = R.out[i].channel.topic
+       /\ IF R.out[i].schema = <<>> THEN obs[i].schema.k = "None" ELSE obs[i].schema.k = "Schema" /\ obs[i].schema.id = R.out[i].schema[1].id
 
 NextCSize(r, wr) == IF Len(wr.chunkIdx) + 1 <= Len(r.csizes) THEN r.csizes[Len(wr.chunkIdx) + 1] ELSE wr.cpos
 
@@ -56,7 +67,7 @@ Next ==
   /\ l <= Len(Trace)
   /\ LET e == Trace[l] IN
      /\ l' = l + 1
-     /\ CASE e.ev = "Run" -> /\ run' = [id |-> e.id, live |-> TRUE, csizes |-> e.csizes]
+     /\ CASE e.ev = "Run" -> /\ run' = [id |-> e.id, live |-> TRUE, csizes |-> e.csizes, tmax |-> e.tmax, recs |-> <<>>]
                              /\ w' = NewWriter(e.cfg, e.tmax) /\ UNCHANGED drift
           [] e.ev = "New" /\ run.live ->
                IF e.ret # "ok" THEN run' = [run EXCEPT !.live = FALSE] /\ UNCHANGED <<w, drift>>
@@ -75,6 +86,9 @@ Next ==
           [] e.ev = "File" /\ run.live /\ w.closed ->
                LET same == Layout(w.out) = Layout(e.recs) /\ w.flen = e.flen IN
                /\ drift' = IF same THEN drift ELSE Append(drift, [line |-> l, id |-> run.id, what |-> <<"layout">>])
+               /\ run' = [run EXCEPT !.recs = e.recs] /\ UNCHANGED w
+          [] e.ev = "Scan" /\ run.live /\ run.recs # <<>> /\ e["end"] = "eof" ->
+               /\ drift' = IF ScanAgrees(run.recs, run.tmax, e.msgs) THEN drift ELSE Append(drift, [line |-> l, id |-> run.id, what |-> <<"scan">>])
                /\ UNCHANGED <<w, run>>
           [] e.ev = "End" -> run' = NoRun /\ w' = NoW /\ UNCHANGED drift
           [] OTHER -> UNCHANGED <<w, run, drift>>
